@@ -19,13 +19,13 @@ func slash() Seg       { return Seg{T: "slash"} }
 func wild(t string, h bool, ms ...Matcher) Seg {
 	return Seg{T: t, H: h, Ms: ms}
 }
-func setM(s string) Matcher    { return Matcher{M: "set", Cs: runes(s)} }
+func setM(s string) Matcher     { return Matcher{M: "set", Cs: runes(s)} }
 func rangeM(lo, hi int) Matcher { return Matcher{M: "range", Lo: lo, Hi: hi} }
-func classM(c string) Matcher  { return Matcher{M: "class", C: c} }
-func file(p string) Ent        { return Ent{P: runes(p), K: "file"} }
-func dir(p string) Ent         { return Ent{P: runes(p), K: "dir"} }
-func symfile(p string) Ent     { return Ent{P: runes(p), K: "symfile"} }
-func symdir(p, t string) Ent   { return Ent{P: runes(p), K: "symdir", T: runes(t)} }
+func classM(c string) Matcher   { return Matcher{M: "class", C: c} }
+func file(p string) Ent         { return Ent{P: runes(p), K: "file"} }
+func dir(p string) Ent          { return Ent{P: runes(p), K: "dir"} }
+func symfile(p string) Ent      { return Ent{P: runes(p), K: "symfile"} }
+func symdir(p, t string) Ent    { return Ent{P: runes(p), K: "symdir", T: runes(t)} }
 
 type probe struct {
 	tree []Ent
@@ -358,7 +358,7 @@ type vjob struct {
 	root string
 }
 
-func validate(c *lib.Ctx, pool evPool, tmp string) error {
+func record(c *lib.Ctx, pool evPool, tmp string) ([]vjob, error) {
 	nTrees := c.Pick(70, 2200)
 	perTree := c.Pick(8, 9)
 	var jobs []vjob
@@ -413,10 +413,10 @@ func validate(c *lib.Ctx, pool evPool, tmp string) error {
 		normTree(pr.tree)
 		pr.pat.norm()
 		if !inModel(pr.pat) {
-			return lib.Infra("probe %d is outside the model", i)
+			return nil, lib.Infra("probe %d is outside the model", i)
 		}
 		if err := runTree(filepath.Join(tmp, fmt.Sprintf("p%d", i)), pr.tree, nil, []Pat{pr.pat}, []string{pr.mode}); err != nil {
-			return err
+			return nil, err
 		}
 	}
 	nProbes := len(jobs)
@@ -449,15 +449,15 @@ func validate(c *lib.Ctx, pool evPool, tmp string) error {
 			modes = append(modes, mode)
 		}
 		if err := runTree(filepath.Join(tmp, fmt.Sprintf("v%d", t)), tree, dangling, pats, modes); err != nil {
-			return err
+			return nil, err
 		}
 	}
 	if first != nil {
-		return first
+		return nil, first
 	}
 	c.Set("v_cases", map[string]any{"probes": nProbes, "random": len(jobs) - nProbes, "random_trees": nTrees, "generated_outside_model_skipped": outOfModel})
 	c.Logf("V: %d recorded cases", len(jobs))
-	return judge(c, jobs)
+	return jobs, nil
 }
 
 type detail struct {
@@ -481,46 +481,79 @@ func judge(c *lib.Ctx, jobs []vjob) error {
 			c.Sample(map[string]any{"tree": treeText(j.vc.Tree), "pattern": j.vc.Code, "via": j.vc.Via, "result": strs(j.vc.Res), "exception": j.vc.Exc})
 		}
 	}
-	bad, err := lib.Judge(c, "JudgeGlob", c.SpecDir("Glob"), "JudgeGlob", cases, par, 13*time.Minute)
-	if err != nil {
-		return err
+	// case walker, DETAIL = TRUE: rejected cases print the sets that key the finding
+	chunk := (len(cases) + judgePar - 1) / judgePar
+	if chunk < 150 {
+		chunk = 150
 	}
+	type part struct{ lo, hi int }
+	var parts []part
+	for lo := 0; lo < len(cases); lo += chunk {
+		parts = append(parts, part{lo, min(lo+chunk, len(cases))})
+	}
+	var mu sync.Mutex
+	var first error
+	fail := func(err error) {
+		mu.Lock()
+		if first == nil {
+			first = err
+		}
+		mu.Unlock()
+	}
+	lib.Parallel(len(parts), judgePar, func(pi int) {
+		p := parts[pi]
+		r, err := c.TLC("JudgeGlob", lib.TLCRun{Dir: c.SpecDir("Glob"), Module: "JudgeGlob", Cfg: "JudgeGlobDetail.cfg", Workers: 1, HeapGB: 3,
+			Timeout: 13 * time.Minute, Files: map[string][]byte{"cases.ndjson": lib.NDJSON(cases[p.lo:p.hi])}})
+		if err != nil {
+			fail(err)
+			return
+		}
+		if r.ErrKind != "" {
+			fail(lib.Infra("JudgeGlob reported %s (%s): judges print BAD lines, they do not fail", r.ErrKind, r.Err))
+			return
+		}
+		if r.Distinct != int64(p.hi-p.lo)+1 {
+			fail(lib.Infra("JudgeGlob walked %d states for %d cases", r.Distinct, p.hi-p.lo))
+			return
+		}
+		bad := map[int]bool{}
+		for _, t := range r.Tagged("BAD") {
+			if k, ok := t[0].(int64); ok {
+				bad[int(k)] = true
+			}
+		}
+		for _, t := range r.Tagged("U") {
+			if len(t) == 3 {
+				a, _ := t[1].(int64)
+				b, _ := t[2].(int64)
+				c.Inc("v_unspecified_paths_produced", a)
+				c.Inc("v_unspecified_paths_not_produced", b)
+			}
+		}
+		got := map[int]bool{}
+		for _, s := range r.PrintedStrings() {
+			var d detail
+			if err := json.Unmarshal([]byte(s), &d); err != nil {
+				fail(lib.Infra("bad detail line: %v: %s", err, s))
+				return
+			}
+			if !bad[d.K] || got[d.K] {
+				continue
+			}
+			got[d.K] = true
+			j := jobs[p.lo+d.K-1]
+			report(c, j.vc, diff{Missing: strs(d.Missing), Extra: strs(d.Extra), Dups: strs(d.Dups), ExcBad: d.ExcBad}, j.root)
+		}
+		if len(got) != len(bad) {
+			fail(lib.Infra("JudgeGlob: %d rejected cases, %d explained", len(bad), len(got)))
+		}
+	})
 	c.AddTraces(len(cases))
 	c.Inc("v_cases_with_results", int64(nonEmpty))
-	if len(bad) == 0 {
-		return nil
-	}
-	// second pass over the rejected cases only: the sets that key the finding
-	var sub []VCase
-	for _, b := range bad {
-		sub = append(sub, cases[b.Index])
-	}
-	r, err := c.TLC("JudgeGlob(detail)", lib.TLCRun{Dir: c.SpecDir("Glob"), Module: "JudgeGlob", Cfg: "JudgeGlobDetail.cfg", Workers: 1,
-		Timeout: 10 * time.Minute, Files: map[string][]byte{"cases.ndjson": lib.NDJSON(sub)}})
-	if err != nil {
-		return err
-	}
-	if r.ErrKind != "" {
-		return lib.Infra("JudgeGlob detail pass: %s", r.Err)
-	}
-	got := map[int]bool{}
-	for _, s := range r.PrintedStrings() {
-		var d detail
-		if err := json.Unmarshal([]byte(s), &d); err != nil {
-			return lib.Infra("bad detail line: %v: %s", err, s)
-		}
-		if d.K < 1 || d.K > len(sub) || got[d.K] {
-			continue
-		}
-		got[d.K] = true
-		j := jobs[bad[d.K-1].Index]
-		report(c, j.vc, diff{Missing: strs(d.Missing), Extra: strs(d.Extra), Dups: strs(d.Dups), ExcBad: d.ExcBad}, j.root)
-	}
-	if len(got) != len(sub) {
-		return lib.Infra("detail pass explained %d of %d rejected cases", len(got), len(sub))
-	}
-	return nil
+	return first
 }
+
+const judgePar = 3
 
 func replay(c *lib.Ctx) error {
 	b, err := os.ReadFile(c.Replay)
